@@ -762,3 +762,34 @@ pub fn dump_case<K: Check>(k: &K, tier: Tier, index: u64) -> i32 {
     println!("{}", serde_json::to_string_pretty(&k.to_j(&case)).unwrap());
     0
 }
+
+/// Determinism aid: one line "index digest" per run, where the digest covers the generated case,
+/// the verdict (with clause and detail) and every counter the run produced (API calls, read and
+/// write completions, fault deliveries, probes). Two processes must print identical lines.
+pub fn digest_runs<K: Check>(k: &K, tier: Tier, from: u64, to: u64) -> i32 {
+    let seed = base_seed();
+    for i in from..to {
+        let (s, ss) = run_seed(seed, k.num(), i);
+        let case = k.gen(s, ss, tier);
+        let mut st = Stats::default();
+        let r = exec_guarded(k, &case, &mut st);
+        let mut f = Fp::default();
+        f.u(k.fingerprint(&case));
+        match r {
+            Ok(Ok(ok)) => {
+                f.u(1).u(ok.nontrivial as u64);
+            }
+            Ok(Err(x)) => {
+                f.u(2).s(&x.clause).s(&x.detail);
+            }
+            Err(m) => {
+                f.u(3).s(&m);
+            }
+        }
+        for (name, v) in &st.c {
+            f.s(name).u(*v);
+        }
+        println!("{} {:016x}", i, f.0);
+    }
+    0
+}
